@@ -380,14 +380,19 @@ def end_to_end(ctx):
             for q in range(ctx.n(12, 40)):
                 o = rng.choice(objs)
                 queries.append((o,) + gen_ranges(rng, o, 1)[0])
-            for o in rng.sample(objs, min(len(objs), ctx.n(8, 20))) + [x for x in objs if len(x["occ"]) > 1000 and not x["unbounded"]]:
+            for o in rng.sample(objs, min(len(objs), ctx.n(8, 20))) + [x for x in objs if len(x["occ"]) > 1000 and not x["unbounded"]] + \
+                    [x for x in objs if x.get("end") == "dtend" and x.get("dur") == 0]:      # events that take no time: always at their edges
                 e0 = o["occ"][0]
                 pts = boundaries(o)
                 edge = [(e0 - 7200, e0), (e0 - 1, e0), (e0 - 7200, e0 + 1), (None, e0), (e0, e0 + 1)]
                 edge += [(p, p + 3600) for p in pts[-4:]] if not o["unbounded"] else []
+                if not o["unbounded"] and len(o["occ"]) <= 1000:
+                    # ranges that share an end point with the enclosing range at its far end, or begin at the last occurrence
+                    el = o["occ"][-1]
+                    edge += [(el, el + 2), (el, el + 3600), (el - 3600, el), (el - 1, el), (e0, el), (e0, el + 1)]
                 if finite_round:
                     edge += [(p, None) for p in pts[-4:]] + [(pts[-1] + 7200, None), (e0 + 1, None)]
-                for fs, fe in (rng.sample(edge, 4) if len(o["occ"]) <= 1000 else edge[-6:]):
+                for fs, fe in (rng.sample(edge, min(7, len(edge))) if len(o["occ"]) <= 1000 else edge[-6:]):
                     queries.append((o, fs, fe))
             for q, (o, fs, fe) in enumerate(queries):
                 kind = o["kind"]
